@@ -109,6 +109,12 @@ impl<'a> IndexPlanner<'a> {
             if matches!(op, In) {
                 return IndexStrategy::FullScan;
             }
+            // The membership (XOR) indexes below can only answer equality. For any other
+            // operator (`!=`, or a range without a SuRF filter) a zone that does not hold the
+            // literal can still hold matching rows, so those zones must be scanned.
+            if !matches!(op, Eq) {
+                return IndexStrategy::FullScan;
+            }
         }
 
         // Equality
